@@ -12,7 +12,7 @@ import (
 const NTemplates = 19
 
 // NFileTemplates file-passing skeletons follow the NTemplates dataflow ones.
-const NFileTemplates = 10
+const NFileTemplates = 11
 
 func ref(call string, path ...string) *Exp { return &Exp{Kind: ERefCall, Id: call, Path: path} }
 func self(id string, path ...string) *Exp  { return &Exp{Kind: ERefSelf, Id: id, Path: path} }
@@ -590,6 +590,21 @@ func Template(kind int, seed int64, cfg *Config) *Program {
 				{Callee: "MK", Map: true, Volatile: g.pct(50), Binds: []Binding{{Id: "x", Exp: ref("GENI", "arr"), Split: true}}},
 			}}
 		switch fk {
+		case 10:
+			// a stage-level retain: MKR declares `retain (f, fs)`; its files are
+			// read by one consumer and, only after that one has finished, by a
+			// second one; they are neither returned nor retained by a pipeline
+			mkr := src(&Stage{Name: "MKR", Ins: []Param{{Name: "x", Type: TInt}}, Outs: []Param{{Name: "f", Type: TFile}, {Name: "fs", Type: ArrayOf(TFile)}, {Name: "g", Type: TFile}},
+				Retain: []string{"f", "fs"}})
+			consa := src(&Stage{Name: "CONSR", Ins: []Param{{Name: "f", Type: TFile}, {Name: "fs", Type: ArrayOf(TFile)}, {Name: "g", Type: TFile}, {Name: "w", Type: TInt}}, Outs: []Param{{Name: "y", Type: TInt}}})
+			p.Stages = []*Stage{geni, mkr, consa}
+			top.Calls = []*Call{top.Calls[0],
+				{Callee: "MKR", Map: true, Volatile: g.pct(50), Binds: []Binding{{Id: "x", Exp: ref("GENI", "arr"), Split: true}}},
+				{Callee: "CONSR", Alias: "FIRST", Map: true, Binds: []Binding{{Id: "f", Exp: ref("MKR", "f"), Split: true}, {Id: "fs", Exp: ref("MKR", "fs"), Split: true}, {Id: "g", Exp: ref("MKR", "g"), Split: true}, {Id: "w", Exp: lit(s2)}}},
+				{Callee: "CONSR", Alias: "SECOND", Map: true, Binds: []Binding{{Id: "f", Exp: ref("MKR", "f"), Split: true}, {Id: "fs", Exp: ref("MKR", "fs"), Split: true}, {Id: "g", Exp: ref("MKR", "g"), Split: true}, {Id: "w", Exp: ref("FIRST", "y"), Split: true}}},
+			}
+			top.Outs = []Param{{Name: "y", Type: wrap(TInt)}}
+			top.Ret = []Binding{{Id: "y", Exp: ref("SECOND", "y")}}
 		case 9:
 			// fk 4 with forks made at run time: the mapped pipeline (and a
 			// directly mapped producer/consumer pair) is split over GENI's output;
